@@ -8,7 +8,7 @@ from ..astutil import calls_in, norm_stmt, path_of, unparse, walk_scope, walk_st
 from ..cfg import own_exprs
 from ..facts import Fact, atoms, enumerate_paths
 from ..report import Ctx
-from .common import always_before, guard, increment_of, ingredients_along, need, node_of, stmts_matching
+from .common import always_before, expand, guard, increment_of, ingredients_along, need, node_of, single_defs, stmts_matching
 
 Q = "happysimulator/components/queue.py"
 QD = "happysimulator/components/queue_driver.py"
@@ -191,9 +191,21 @@ def rule_ordering(ctx: Ctx) -> None:
     for rel, q in ((QP, "PriorityQueue.push"), (QPS + "deadline_queue.py", "DeadlineQueue.push")):
         fn = prog.func(rel, q)
         ctor = [c for c in calls_in(fn.node) if (path_of(c.func) or "").endswith("Entry")]
-        inc = [s for s in walk_stmts(fn.node.body) if increment_of(s, "self._insert_counter") == 1]
-        args = [unparse(a) for a in ctor[0].args] + [unparse(k.value) for k in ctor[0].keywords] if ctor else []
-        ok = len(ctor) == 1 and len(inc) == 1 and "self._insert_counter" in args
+        # a local read of the counter (`order = self._insert_counter`, bound once, before any write of the counter) stands for the counter
+        sd = {k_: v_ for k_, v_ in single_defs(fn).items() if path_of(v_) == "self._insert_counter"}
+        def _exp(st_):
+            if isinstance(st_, ast.Assign) and sd:
+                st2 = ast.Assign(targets=st_.targets, value=expand(st_.value, sd))
+                return ast.copy_location(st2, st_)
+            return st_
+        writes_c = [s for s in walk_stmts(fn.node.body) if increment_of(_exp(s), "self._insert_counter") is not None]
+        inc = [s for s in writes_c if increment_of(_exp(s), "self._insert_counter") == 1]
+        for k_ in list(sd):
+            d_ = [s for s in walk_stmts(fn.node.body) if isinstance(s, ast.Assign) and path_of(s.targets[0]) == k_]
+            if writes_c and always_before(ctx, fn, lambda n_: n_.ast is d_[0], lambda n_: any(n_.ast is w for w in writes_c)):
+                sd.pop(k_)  # read after (or not always before) the counter moved: not the entry's own index
+        args = [unparse(expand(a, sd)) for a in ctor[0].args] + [unparse(expand(k.value, sd)) for k in ctor[0].keywords] if ctor else []
+        ok = len(ctor) == 1 and len(inc) == 1 and len(writes_c) == 1 and "self._insert_counter" in args
         ctx.ob("C08-3", "G2", fn, ctor[0] if ctor else None, ok, f"{q}: each entry takes the current insertion counter, which then increases by one (FIFO among equal keys)")
     # deque ends
     for cname, rem_attr, what in (("FIFOQueue", "popleft", "opposite end (FIFO)"), ("LIFOQueue", "pop", "same end (LIFO)")):
